@@ -5,8 +5,9 @@
 set -u
 d="$1"
 cmd="${DEMO_CMD:-$(grep -ho "cargo test -p [a-z_-]* --offline --test [a-z0-9_]*" "$d/README.md" | sort -u | head -1)}"
-export CARGO_TARGET_DIR=/tmp/confirm/target
-cd /tmp/confirm || exit 2
+WT="${CONFIRM_WT:-/tmp/confirm}"
+export CARGO_TARGET_DIR=$WT/target
+cd "$WT" || exit 2
 git checkout -q -- . ; git clean -fdq -e target
 log="$d/confirm.log"; : > "$log"
 git apply "$d/patch.diff" || { echo "$d: PATCH DOES NOT APPLY"; exit 1; }
